@@ -144,6 +144,45 @@ Proof.
   exact (walk_rejected_row m b draw fuel s l e Hne Hw r Hr).
 Qed.
 
+(* Hooks.  [transition_w] is the same call threading a log of State.transition_side_effect invocations (state, group,
+   state column of the group at that moment).  It projects onto [transition] whatever the outcome ... *)
+Theorem C17_hooks_projection : forall fuel m b draw tracked col idx w' o,
+  transition_w fuel m b draw tracked col idx = (w', o) -> transition fuel m b draw tracked col idx = (fst w', o).
+Proof. intros fuel m b draw tracked col idx w' o H. exact (proj1 (transition_sim _ _ _ _ _ _ _ _ _ H)). Qed.
+
+(* ... and when the call ends normally its log is the function [transition_effects] of the request; every hook is
+   invoked AFTER the state write (it sees its whole group already in the new state), with a non-empty group made of
+   tracked simulants of the request only. *)
+Theorem C17_hooks_after_write : forall fuel m b draw tracked col idx col' log,
+  transition_w fuel m b draw tracked col idx = ((col', log), Done) ->
+  transition fuel m b draw tracked col idx = (col', Done) /\
+  log = transition_effects fuel m b draw tracked col idx /\
+  forall e, In e log -> e_members e <> [] /\ e_seen e = map (fun _ => e_state e) (e_members e) /\
+                        forall l, In l (e_members e) -> In l idx /\ tracked l = true.
+Proof. exact hooks_after_write. Qed.
+
+(* Exactly once per move: the hooks that see a simulant are, in order, exactly the states it is written into ([own_trail]:
+   the declared transition it takes, then the transient states it passes through).  A simulant that is not moved (outside
+   the tracked request, unknown state, null transition, no transitions) is seen by NO hook; a moved one is seen last by
+   the hook of the state it ends in.  Requests may repeat labels. *)
+Theorem C17_hooks_exactly_once : forall fuel m b draw tracked col idx col',
+  NoDup (map s_id (m_states m)) ->
+  transition fuel m b draw tracked col idx = (col', Done) ->
+  forall l, seen_by l (transition_effects fuel m b draw tracked col idx) = own_trail fuel m b draw tracked col idx l /\
+            (own_trail fuel m b draw tracked col idx l = [] -> col' l = col l) /\
+            (own_trail fuel m b draw tracked col idx l <> [] ->
+               last (own_trail fuel m b draw tracked col idx l) 0 = col' l).
+Proof. exact hooks_exactly_once. Qed.
+
+(* Machine.cleanup hands every tracked requested simulant to the cleanup hook of exactly the state it is in, once, and
+   nobody else to any hook. *)
+Theorem C17_cleanup_once : forall m tracked col idx l, NoDup (map s_id (m_states m)) ->
+  map fst (filter (fun c => zmem l (snd c)) (cleanup_calls m tracked col idx)) =
+  if zmem l idx && tracked l
+  then match find_state (col l) (m_states m) with Some s => [s_id s] | None => [] end
+  else [].
+Proof. exact cleanup_seen. Qed.
+
 (* Fuel is only a device of the model: when the transient states form acyclic chains (a measure [d] that strictly
    decreases along every transition into a transient state) and the fuel exceeds it, the call never runs out of fuel -
    it ends normally or with a refusal.  (A cycle of transient states recurses without bound in the real code: F-K.) *)
@@ -174,6 +213,19 @@ Proof. vm_compute. repeat constructor; simpl; intuition discriminate. Qed.
 Example ex_run :
   let '(col', o) := transition 4 ex_m 16 ex_draw ex_tracked ex_col [4; 3; 2; 1; 0; 5] in
   (o, map col' [0; 1; 2; 3; 4; 5; 6]) = (Done, [2; 2; 0; 0; 0; 0; 0]).
+Proof. vm_compute. reflexivity. Qed.
+(* hooks of the same call: b then c for simulants 0 and 1 (group order = request order), c -> a for simulant 4 *)
+Example ex_hooks :
+  let '((_, log), o) := transition_w 4 ex_m 16 ex_draw ex_tracked ex_col [4; 3; 2; 1; 0; 5] in
+  (o, map (fun e => (e_state e, e_members e, e_seen e)) log) =
+  (Done, [(1, [1; 0], [1; 1]); (2, [1; 0], [2; 2]); (0, [4], [0])]) /\
+  map (fun l => seen_by l log) [0; 1; 2; 3; 4; 5] = [[1; 2]; [1; 2]; []; []; [0]; []].
+Proof. vm_compute. auto. Qed.
+Example ex_dup_request :
+  let '((col', log), o) := transition_w 4 ex_m 16 ex_draw ex_tracked ex_col [1; 4; 1] in
+  (o, map col' [1; 4], map (fun e => (e_state e, e_members e)) log) = (Done, [2; 0], [(1, [1; 1]); (2, [1; 1]); (0, [4])]).
+Proof. vm_compute. reflexivity. Qed.
+Example ex_cleanup : cleanup_calls ex_m ex_tracked ex_col [4; 3; 0; 5; 6] = [(0, [3; 0; 6]); (2, [4])].
 Proof. vm_compute. reflexivity. Qed.
 Example ex_own : map (own_destination 4 ex_m 16 ex_draw ex_tracked ex_col [4; 3; 2; 1; 0; 5]) [0; 1; 2; 3; 4; 5; 6]
                  = [2; 2; 0; 0; 0; 0; 0].
@@ -210,3 +262,7 @@ Print Assumptions C17_unnormalisable_rejected.
 Print Assumptions C17_rejected_group_unchanged.
 Print Assumptions C17_rejected_call.
 Print Assumptions C17_enough_fuel.
+Print Assumptions C17_hooks_projection.
+Print Assumptions C17_hooks_after_write.
+Print Assumptions C17_hooks_exactly_once.
+Print Assumptions C17_cleanup_once.
